@@ -144,92 +144,92 @@ require (
 )
 
 replace (
-	go.opentelemetry.io/collector => /tmp/seedrepo.8590
-	go.opentelemetry.io/collector/client => /tmp/seedrepo.8590/client
-	go.opentelemetry.io/collector/cmd/builder => /tmp/seedrepo.8590/cmd/builder
-	go.opentelemetry.io/collector/cmd/mdatagen => /tmp/seedrepo.8590/cmd/mdatagen
-	go.opentelemetry.io/collector/cmd/otelcorecol => /tmp/seedrepo.8590/cmd/otelcorecol
-	go.opentelemetry.io/collector/component => /tmp/seedrepo.8590/component
-	go.opentelemetry.io/collector/component/componentstatus => /tmp/seedrepo.8590/component/componentstatus
-	go.opentelemetry.io/collector/component/componenttest => /tmp/seedrepo.8590/component/componenttest
-	go.opentelemetry.io/collector/config/configauth => /tmp/seedrepo.8590/config/configauth
-	go.opentelemetry.io/collector/config/configcompression => /tmp/seedrepo.8590/config/configcompression
-	go.opentelemetry.io/collector/config/configgrpc => /tmp/seedrepo.8590/config/configgrpc
-	go.opentelemetry.io/collector/config/confighttp => /tmp/seedrepo.8590/config/confighttp
-	go.opentelemetry.io/collector/config/confighttp/xconfighttp => /tmp/seedrepo.8590/config/confighttp/xconfighttp
-	go.opentelemetry.io/collector/config/configmiddleware => /tmp/seedrepo.8590/config/configmiddleware
-	go.opentelemetry.io/collector/config/confignet => /tmp/seedrepo.8590/config/confignet
-	go.opentelemetry.io/collector/config/configopaque => /tmp/seedrepo.8590/config/configopaque
-	go.opentelemetry.io/collector/config/configretry => /tmp/seedrepo.8590/config/configretry
-	go.opentelemetry.io/collector/config/configtelemetry => /tmp/seedrepo.8590/config/configtelemetry
-	go.opentelemetry.io/collector/config/configtls => /tmp/seedrepo.8590/config/configtls
-	go.opentelemetry.io/collector/confmap => /tmp/seedrepo.8590/confmap
-	go.opentelemetry.io/collector/confmap/internal/e2e => /tmp/seedrepo.8590/confmap/internal/e2e
-	go.opentelemetry.io/collector/confmap/provider/envprovider => /tmp/seedrepo.8590/confmap/provider/envprovider
-	go.opentelemetry.io/collector/confmap/provider/fileprovider => /tmp/seedrepo.8590/confmap/provider/fileprovider
-	go.opentelemetry.io/collector/confmap/provider/httpprovider => /tmp/seedrepo.8590/confmap/provider/httpprovider
-	go.opentelemetry.io/collector/confmap/provider/httpsprovider => /tmp/seedrepo.8590/confmap/provider/httpsprovider
-	go.opentelemetry.io/collector/confmap/provider/yamlprovider => /tmp/seedrepo.8590/confmap/provider/yamlprovider
-	go.opentelemetry.io/collector/confmap/xconfmap => /tmp/seedrepo.8590/confmap/xconfmap
-	go.opentelemetry.io/collector/connector => /tmp/seedrepo.8590/connector
-	go.opentelemetry.io/collector/connector/connectortest => /tmp/seedrepo.8590/connector/connectortest
-	go.opentelemetry.io/collector/connector/forwardconnector => /tmp/seedrepo.8590/connector/forwardconnector
-	go.opentelemetry.io/collector/connector/xconnector => /tmp/seedrepo.8590/connector/xconnector
-	go.opentelemetry.io/collector/consumer => /tmp/seedrepo.8590/consumer
-	go.opentelemetry.io/collector/consumer/consumererror => /tmp/seedrepo.8590/consumer/consumererror
-	go.opentelemetry.io/collector/consumer/consumererror/xconsumererror => /tmp/seedrepo.8590/consumer/consumererror/xconsumererror
-	go.opentelemetry.io/collector/consumer/consumertest => /tmp/seedrepo.8590/consumer/consumertest
-	go.opentelemetry.io/collector/consumer/xconsumer => /tmp/seedrepo.8590/consumer/xconsumer
-	go.opentelemetry.io/collector/exporter => /tmp/seedrepo.8590/exporter
-	go.opentelemetry.io/collector/exporter/debugexporter => /tmp/seedrepo.8590/exporter/debugexporter
-	go.opentelemetry.io/collector/exporter/exporterhelper/xexporterhelper => /tmp/seedrepo.8590/exporter/exporterhelper/xexporterhelper
-	go.opentelemetry.io/collector/exporter/exportertest => /tmp/seedrepo.8590/exporter/exportertest
-	go.opentelemetry.io/collector/exporter/nopexporter => /tmp/seedrepo.8590/exporter/nopexporter
-	go.opentelemetry.io/collector/exporter/otlpexporter => /tmp/seedrepo.8590/exporter/otlpexporter
-	go.opentelemetry.io/collector/exporter/otlphttpexporter => /tmp/seedrepo.8590/exporter/otlphttpexporter
-	go.opentelemetry.io/collector/exporter/xexporter => /tmp/seedrepo.8590/exporter/xexporter
-	go.opentelemetry.io/collector/extension => /tmp/seedrepo.8590/extension
-	go.opentelemetry.io/collector/extension/extensionauth => /tmp/seedrepo.8590/extension/extensionauth
-	go.opentelemetry.io/collector/extension/extensionauth/extensionauthtest => /tmp/seedrepo.8590/extension/extensionauth/extensionauthtest
-	go.opentelemetry.io/collector/extension/extensioncapabilities => /tmp/seedrepo.8590/extension/extensioncapabilities
-	go.opentelemetry.io/collector/extension/extensionmiddleware => /tmp/seedrepo.8590/extension/extensionmiddleware
-	go.opentelemetry.io/collector/extension/extensionmiddleware/extensionmiddlewaretest => /tmp/seedrepo.8590/extension/extensionmiddleware/extensionmiddlewaretest
-	go.opentelemetry.io/collector/extension/extensiontest => /tmp/seedrepo.8590/extension/extensiontest
-	go.opentelemetry.io/collector/extension/memorylimiterextension => /tmp/seedrepo.8590/extension/memorylimiterextension
-	go.opentelemetry.io/collector/extension/xextension => /tmp/seedrepo.8590/extension/xextension
-	go.opentelemetry.io/collector/extension/zpagesextension => /tmp/seedrepo.8590/extension/zpagesextension
-	go.opentelemetry.io/collector/featuregate => /tmp/seedrepo.8590/featuregate
-	go.opentelemetry.io/collector/filter => /tmp/seedrepo.8590/filter
-	go.opentelemetry.io/collector/internal/e2e => /tmp/seedrepo.8590/internal/e2e
-	go.opentelemetry.io/collector/internal/fanoutconsumer => /tmp/seedrepo.8590/internal/fanoutconsumer
-	go.opentelemetry.io/collector/internal/memorylimiter => /tmp/seedrepo.8590/internal/memorylimiter
-	go.opentelemetry.io/collector/internal/sharedcomponent => /tmp/seedrepo.8590/internal/sharedcomponent
-	go.opentelemetry.io/collector/internal/telemetry => /tmp/seedrepo.8590/internal/telemetry
-	go.opentelemetry.io/collector/internal/tools => /tmp/seedrepo.8590/internal/tools
-	go.opentelemetry.io/collector/otelcol => /tmp/seedrepo.8590/otelcol
-	go.opentelemetry.io/collector/otelcol/otelcoltest => /tmp/seedrepo.8590/otelcol/otelcoltest
-	go.opentelemetry.io/collector/pdata => /tmp/seedrepo.8590/pdata
-	go.opentelemetry.io/collector/pdata/pprofile => /tmp/seedrepo.8590/pdata/pprofile
-	go.opentelemetry.io/collector/pdata/testdata => /tmp/seedrepo.8590/pdata/testdata
-	go.opentelemetry.io/collector/pipeline => /tmp/seedrepo.8590/pipeline
-	go.opentelemetry.io/collector/pipeline/xpipeline => /tmp/seedrepo.8590/pipeline/xpipeline
-	go.opentelemetry.io/collector/processor => /tmp/seedrepo.8590/processor
-	go.opentelemetry.io/collector/processor/batchprocessor => /tmp/seedrepo.8590/processor/batchprocessor
-	go.opentelemetry.io/collector/processor/memorylimiterprocessor => /tmp/seedrepo.8590/processor/memorylimiterprocessor
-	go.opentelemetry.io/collector/processor/processorhelper => /tmp/seedrepo.8590/processor/processorhelper
-	go.opentelemetry.io/collector/processor/processorhelper/xprocessorhelper => /tmp/seedrepo.8590/processor/processorhelper/xprocessorhelper
-	go.opentelemetry.io/collector/processor/processortest => /tmp/seedrepo.8590/processor/processortest
-	go.opentelemetry.io/collector/processor/xprocessor => /tmp/seedrepo.8590/processor/xprocessor
-	go.opentelemetry.io/collector/receiver => /tmp/seedrepo.8590/receiver
-	go.opentelemetry.io/collector/receiver/nopreceiver => /tmp/seedrepo.8590/receiver/nopreceiver
-	go.opentelemetry.io/collector/receiver/otlpreceiver => /tmp/seedrepo.8590/receiver/otlpreceiver
-	go.opentelemetry.io/collector/receiver/receiverhelper => /tmp/seedrepo.8590/receiver/receiverhelper
-	go.opentelemetry.io/collector/receiver/receivertest => /tmp/seedrepo.8590/receiver/receivertest
-	go.opentelemetry.io/collector/receiver/xreceiver => /tmp/seedrepo.8590/receiver/xreceiver
-	go.opentelemetry.io/collector/scraper => /tmp/seedrepo.8590/scraper
-	go.opentelemetry.io/collector/scraper/scraperhelper => /tmp/seedrepo.8590/scraper/scraperhelper
-	go.opentelemetry.io/collector/scraper/scrapertest => /tmp/seedrepo.8590/scraper/scrapertest
-	go.opentelemetry.io/collector/semconv => /tmp/seedrepo.8590/semconv
-	go.opentelemetry.io/collector/service => /tmp/seedrepo.8590/service
-	go.opentelemetry.io/collector/service/hostcapabilities => /tmp/seedrepo.8590/service/hostcapabilities
+	go.opentelemetry.io/collector => /repo
+	go.opentelemetry.io/collector/client => /repo/client
+	go.opentelemetry.io/collector/cmd/builder => /repo/cmd/builder
+	go.opentelemetry.io/collector/cmd/mdatagen => /repo/cmd/mdatagen
+	go.opentelemetry.io/collector/cmd/otelcorecol => /repo/cmd/otelcorecol
+	go.opentelemetry.io/collector/component => /repo/component
+	go.opentelemetry.io/collector/component/componentstatus => /repo/component/componentstatus
+	go.opentelemetry.io/collector/component/componenttest => /repo/component/componenttest
+	go.opentelemetry.io/collector/config/configauth => /repo/config/configauth
+	go.opentelemetry.io/collector/config/configcompression => /repo/config/configcompression
+	go.opentelemetry.io/collector/config/configgrpc => /repo/config/configgrpc
+	go.opentelemetry.io/collector/config/confighttp => /repo/config/confighttp
+	go.opentelemetry.io/collector/config/confighttp/xconfighttp => /repo/config/confighttp/xconfighttp
+	go.opentelemetry.io/collector/config/configmiddleware => /repo/config/configmiddleware
+	go.opentelemetry.io/collector/config/confignet => /repo/config/confignet
+	go.opentelemetry.io/collector/config/configopaque => /repo/config/configopaque
+	go.opentelemetry.io/collector/config/configretry => /repo/config/configretry
+	go.opentelemetry.io/collector/config/configtelemetry => /repo/config/configtelemetry
+	go.opentelemetry.io/collector/config/configtls => /repo/config/configtls
+	go.opentelemetry.io/collector/confmap => /repo/confmap
+	go.opentelemetry.io/collector/confmap/internal/e2e => /repo/confmap/internal/e2e
+	go.opentelemetry.io/collector/confmap/provider/envprovider => /repo/confmap/provider/envprovider
+	go.opentelemetry.io/collector/confmap/provider/fileprovider => /repo/confmap/provider/fileprovider
+	go.opentelemetry.io/collector/confmap/provider/httpprovider => /repo/confmap/provider/httpprovider
+	go.opentelemetry.io/collector/confmap/provider/httpsprovider => /repo/confmap/provider/httpsprovider
+	go.opentelemetry.io/collector/confmap/provider/yamlprovider => /repo/confmap/provider/yamlprovider
+	go.opentelemetry.io/collector/confmap/xconfmap => /repo/confmap/xconfmap
+	go.opentelemetry.io/collector/connector => /repo/connector
+	go.opentelemetry.io/collector/connector/connectortest => /repo/connector/connectortest
+	go.opentelemetry.io/collector/connector/forwardconnector => /repo/connector/forwardconnector
+	go.opentelemetry.io/collector/connector/xconnector => /repo/connector/xconnector
+	go.opentelemetry.io/collector/consumer => /repo/consumer
+	go.opentelemetry.io/collector/consumer/consumererror => /repo/consumer/consumererror
+	go.opentelemetry.io/collector/consumer/consumererror/xconsumererror => /repo/consumer/consumererror/xconsumererror
+	go.opentelemetry.io/collector/consumer/consumertest => /repo/consumer/consumertest
+	go.opentelemetry.io/collector/consumer/xconsumer => /repo/consumer/xconsumer
+	go.opentelemetry.io/collector/exporter => /repo/exporter
+	go.opentelemetry.io/collector/exporter/debugexporter => /repo/exporter/debugexporter
+	go.opentelemetry.io/collector/exporter/exporterhelper/xexporterhelper => /repo/exporter/exporterhelper/xexporterhelper
+	go.opentelemetry.io/collector/exporter/exportertest => /repo/exporter/exportertest
+	go.opentelemetry.io/collector/exporter/nopexporter => /repo/exporter/nopexporter
+	go.opentelemetry.io/collector/exporter/otlpexporter => /repo/exporter/otlpexporter
+	go.opentelemetry.io/collector/exporter/otlphttpexporter => /repo/exporter/otlphttpexporter
+	go.opentelemetry.io/collector/exporter/xexporter => /repo/exporter/xexporter
+	go.opentelemetry.io/collector/extension => /repo/extension
+	go.opentelemetry.io/collector/extension/extensionauth => /repo/extension/extensionauth
+	go.opentelemetry.io/collector/extension/extensionauth/extensionauthtest => /repo/extension/extensionauth/extensionauthtest
+	go.opentelemetry.io/collector/extension/extensioncapabilities => /repo/extension/extensioncapabilities
+	go.opentelemetry.io/collector/extension/extensionmiddleware => /repo/extension/extensionmiddleware
+	go.opentelemetry.io/collector/extension/extensionmiddleware/extensionmiddlewaretest => /repo/extension/extensionmiddleware/extensionmiddlewaretest
+	go.opentelemetry.io/collector/extension/extensiontest => /repo/extension/extensiontest
+	go.opentelemetry.io/collector/extension/memorylimiterextension => /repo/extension/memorylimiterextension
+	go.opentelemetry.io/collector/extension/xextension => /repo/extension/xextension
+	go.opentelemetry.io/collector/extension/zpagesextension => /repo/extension/zpagesextension
+	go.opentelemetry.io/collector/featuregate => /repo/featuregate
+	go.opentelemetry.io/collector/filter => /repo/filter
+	go.opentelemetry.io/collector/internal/e2e => /repo/internal/e2e
+	go.opentelemetry.io/collector/internal/fanoutconsumer => /repo/internal/fanoutconsumer
+	go.opentelemetry.io/collector/internal/memorylimiter => /repo/internal/memorylimiter
+	go.opentelemetry.io/collector/internal/sharedcomponent => /repo/internal/sharedcomponent
+	go.opentelemetry.io/collector/internal/telemetry => /repo/internal/telemetry
+	go.opentelemetry.io/collector/internal/tools => /repo/internal/tools
+	go.opentelemetry.io/collector/otelcol => /repo/otelcol
+	go.opentelemetry.io/collector/otelcol/otelcoltest => /repo/otelcol/otelcoltest
+	go.opentelemetry.io/collector/pdata => /repo/pdata
+	go.opentelemetry.io/collector/pdata/pprofile => /repo/pdata/pprofile
+	go.opentelemetry.io/collector/pdata/testdata => /repo/pdata/testdata
+	go.opentelemetry.io/collector/pipeline => /repo/pipeline
+	go.opentelemetry.io/collector/pipeline/xpipeline => /repo/pipeline/xpipeline
+	go.opentelemetry.io/collector/processor => /repo/processor
+	go.opentelemetry.io/collector/processor/batchprocessor => /repo/processor/batchprocessor
+	go.opentelemetry.io/collector/processor/memorylimiterprocessor => /repo/processor/memorylimiterprocessor
+	go.opentelemetry.io/collector/processor/processorhelper => /repo/processor/processorhelper
+	go.opentelemetry.io/collector/processor/processorhelper/xprocessorhelper => /repo/processor/processorhelper/xprocessorhelper
+	go.opentelemetry.io/collector/processor/processortest => /repo/processor/processortest
+	go.opentelemetry.io/collector/processor/xprocessor => /repo/processor/xprocessor
+	go.opentelemetry.io/collector/receiver => /repo/receiver
+	go.opentelemetry.io/collector/receiver/nopreceiver => /repo/receiver/nopreceiver
+	go.opentelemetry.io/collector/receiver/otlpreceiver => /repo/receiver/otlpreceiver
+	go.opentelemetry.io/collector/receiver/receiverhelper => /repo/receiver/receiverhelper
+	go.opentelemetry.io/collector/receiver/receivertest => /repo/receiver/receivertest
+	go.opentelemetry.io/collector/receiver/xreceiver => /repo/receiver/xreceiver
+	go.opentelemetry.io/collector/scraper => /repo/scraper
+	go.opentelemetry.io/collector/scraper/scraperhelper => /repo/scraper/scraperhelper
+	go.opentelemetry.io/collector/scraper/scrapertest => /repo/scraper/scrapertest
+	go.opentelemetry.io/collector/semconv => /repo/semconv
+	go.opentelemetry.io/collector/service => /repo/service
+	go.opentelemetry.io/collector/service/hostcapabilities => /repo/service/hostcapabilities
 )
